@@ -1,12 +1,104 @@
 /-
-C02 — State root is a canonical, format-stable commitment to content. (Theorems are added as they are proved.)
+C02 — State root is a canonical, format-stable commitment to content.
+
+"At a fixed trie version, the root hash depends only on the set of path/value pairs currently stored, never on the
+order of operations or on values stored and later removed.  Two tries with different content have different roots."
+
+Proved here (model `Verif.Model.Mpt` / `Verif.Model.MptEnc`):
+  * `C02_canonical_unique`     canonical tries (`WF`) with one origin and equal content are equal trees;
+  * `C02_root_of_content`      … hence have equal roots, for every hash function `H`;
+  * `C02_allOrigin_insert/_delete`  operations at version `v` only create nodes of origin `v`;
+  * `C02_history_independent`, `C02_root_history_independent`
+                               two operation sequences (exported `Insert`/`Delete`, one version) with the same
+                               abstract content produce the same tree and the same root
+                               (relative to `MapLaws`, the map-refinement facts of C01).
 -/
 import Verif.Model.MptEnc
 import Verif.Lemmas.MptWF
+import Verif.Lemmas.MptCanon
+import Verif.Lemmas.MptCanonDec
+import Verif.Lemmas.MptHistory
 namespace Verif.Props.C02
 open Verif.Mpt
 
-/-- the root is a function of the tree: equal trees have equal roots (used with canonical-form uniqueness) -/
-theorem root_congr (H : Bytes → Bytes) (t₁ t₂ : Node) (h : t₁ = t₂) : root H t₁ = root H t₂ := by rw [h]
+/-! ### A. uniqueness of the canonical form -/
+
+/-- Two canonical tries whose nodes were all written at version `v` and which store the same path/value pairs are
+    the same tree. -/
+theorem C02_canonical_unique (v : Nat) (t₁ t₂ : Node) (hw₁ : WF t₁) (hw₂ : WF t₂)
+    (ho₁ : AllOrigin v t₁) (ho₂ : AllOrigin v t₂) (h : ∀ q, lookup t₁ q = lookup t₂ q) : t₁ = t₂ :=
+  canon_unique_wf v t₁ t₂ hw₁ hw₂ ho₁ ho₂ h
+
+/-- … and therefore have the same root key, whatever the hash function. -/
+theorem C02_root_of_content (H : Bytes → Bytes) (v : Nat) (t₁ t₂ : Node) (hw₁ : WF t₁) (hw₂ : WF t₂)
+    (ho₁ : AllOrigin v t₁) (ho₂ : AllOrigin v t₂) (h : ∀ q, lookup t₁ q = lookup t₂ q) :
+    root H t₁ = root H t₂ := by
+  rw [C02_canonical_unique v t₁ t₂ hw₁ hw₂ ho₁ ho₂ h]
+
+/-- non-vacuity: the same two entries inserted in both orders (the two trees differ as terms: the children functions
+    are built in different orders) -/
+def exA₁ : Node := Verif.Mpt.insert 7 [2] (Verif.Mpt.insert 7 [1] .empty [0, 1]) [0, 2]
+def exA₂ : Node := Verif.Mpt.insert 7 [1] (Verif.Mpt.insert 7 [2] .empty [0, 2]) [0, 1]
+
+example : WF exA₁ ∧ WF exA₂ ∧ AllOrigin 7 exA₁ ∧ AllOrigin 7 exA₂ ∧ lookup exA₁ [0, 1] = some [1] ∧
+    ∀ q, lookup exA₁ q = lookup exA₂ q := by
+  refine ⟨by decide, by decide, by decide, by decide, by decide, ?_⟩
+  have e1 : exA₁ = .ext 7 [0] (.full 7 (upd (upd emptyCh 2 (.leaf 7 [] [2])) 1 (.leaf 7 [] [1])) none) := rfl
+  have e2 : exA₂ = .ext 7 [0] (.full 7 (upd (upd emptyCh 1 (.leaf 7 [] [1])) 2 (.leaf 7 [] [2])) none) := rfl
+  rw [e1, e2]
+  apply lookup_ext_congr
+  apply lookup_full_congr
+  intro i q
+  simp only [upd]
+  split <;> split <;> simp_all
+
+/-! ### B. origins -/
+
+theorem C02_allOrigin_insert (v : Nat) (b : Bytes) (t : Node) (p : List Nib) (h : AllOrigin v t) :
+    AllOrigin v (insert v b t p) :=
+  allOrigin_insert v b t p h
+
+theorem C02_allOrigin_delete (v : Nat) (t : Node) (p : List Nib) (t' : Node) (h : AllOrigin v t)
+    (hd : delete v t p = .node t') : AllOrigin v t' :=
+  allOrigin_delete v t p t' h hd
+
+example : AllOrigin 7 exA₁ ∧ delete 7 exA₁ [0, 1] = .node (.leaf 7 [0, 2] [2]) := ⟨by decide, rfl⟩
+
+/-! ### C. history independence -/
+
+/-! `MapLaws` (the C01 map-refinement facts as one named hypothesis), `Op`, `run`, `content` are defined in
+    `Verif.Lemmas.MptHistory`. -/
+
+/-- the trie produced by a sequence of operations is canonical, single-origin, and represents `content ops` -/
+theorem C02_run_repr (L : MapLaws) (maxSize v : Nat) (ops : List Op) :
+    WF (run maxSize v ops) ∧ AllOrigin v (run maxSize v ops) ∧
+      ∀ q, lookup (run maxSize v ops) q = content maxSize ops q :=
+  repr_runFrom L maxSize v ops .empty (fun _ => none) ⟨Or.inl rfl, by simp [AllOrigin], fun q => by simp⟩
+
+/-- **History independence.** At one trie version, two sequences of `Insert`/`Delete` calls that leave the same set of
+    path/value pairs produce the same tree — whatever the order of the calls and whatever was stored and removed in
+    between. -/
+theorem C02_history_independent (L : MapLaws) (maxSize v : Nat) (ops₁ ops₂ : List Op)
+    (h : content maxSize ops₁ = content maxSize ops₂) : run maxSize v ops₁ = run maxSize v ops₂ := by
+  obtain ⟨hw₁, ho₁, hm₁⟩ := C02_run_repr L maxSize v ops₁
+  obtain ⟨hw₂, ho₂, hm₂⟩ := C02_run_repr L maxSize v ops₂
+  exact C02_canonical_unique v _ _ hw₁ hw₂ ho₁ ho₂ (fun q => by rw [hm₁, hm₂, h])
+
+/-- … and therefore the same root hash, for every hash function `H`. -/
+theorem C02_root_history_independent (L : MapLaws) (H : Bytes → Bytes) (maxSize v : Nat) (ops₁ ops₂ : List Op)
+    (h : content maxSize ops₁ = content maxSize ops₂) :
+    root H (run maxSize v ops₁) = root H (run maxSize v ops₂) := by
+  rw [C02_history_independent L maxSize v ops₁ ops₂ h]
+
+/-- non-vacuity of the content hypothesis: different orders, and an entry stored and removed again -/
+def exOps₁ : List Op := [.ins [0, 1] [1], .ins [0, 2] [2], .ins [3] [9], .del [3]]
+def exOps₂ : List Op := [.ins [0, 2] [2], .ins [3] [], .ins [0, 1] [1]]
+
+example : content 100 exOps₁ = content 100 exOps₂ ∧ content 100 exOps₁ [0, 1] = some [1] ∧
+    run 100 7 exOps₁ = exA₁ ∧ run 100 7 exOps₂ = exA₂ := by
+  refine ⟨?_, by decide, rfl, rfl⟩
+  funext q
+  simp only [content, contentFrom, exOps₁, exOps₂, List.foldl, stepMap]
+  by_cases h1 : q = [0, 1] <;> by_cases h2 : q = [0, 2] <;> by_cases h3 : q = [3] <;> simp_all
 
 end Verif.Props.C02
